@@ -519,7 +519,7 @@ theorem single_to_list_spec (s : Schema) (f : Nat) (et : Ty) (nn : Bool) (iv : S
   simp only [Spec.coerce]
   conv => lhs; unfold Spec.coerceTy
   simp only [hn]
-  cases iv <;> first | (exact absurd rfl (hl _)) | simp
+  cases iv <;> first | (exact absurd rfl (hl _)) | (simp [Spec.isNullIV] at hn; done) | rfl | simp
 
 /-! ## omitted vs explicit null vs value -/
 
@@ -657,7 +657,7 @@ theorem literal_over_int64_witness :
 theorem list_of_map_inputs_witness :
     fieldStep exSchema {} [] (argV (.list (.named "M" true) false)) [("v", .list [.obj [("a", .int 1)]])] ["f"]
       = .error ["f"] "panic: interface conversion: not map[string]interface {}" ∧
-    Spec.coerce {} exSchema 5 (.list (.named "M" true) false) (.list [.obj [("a", .int 1)]]) ["f", "v"]
+    Spec.coerce {} exSchema 5 (.list (.named "M" true) false) (.list [.obj [("a", .int 1 "1")]]) ["f", "v"]
       = .ok (.list [.obj [("a", .int 1)]]) := by
   refine ⟨by rfl, by rfl⟩
 
